@@ -138,7 +138,8 @@ def FlushDrops : Prop :=
 def EBR (tr : Option Nat) (s : HState σ) : Prop := EB P hc Ok k tr s ∧ RB hc (hc.mcfg.H k) s
 
 include L hn he ht hf in
-theorem woe_reopen {tr : Option Nat} {s : HState σ} (hfd : FlushDrops P hc Ok k) (h : EBR P hc Ok k tr s) :
+theorem woe_reopen {tr : Option Nat} {s : HState σ} (h : EBR P hc Ok k tr s)
+    (hfl : Cache.lookup hc.mcfg (Cache.step P hc.mcfg s.mem .flush).1 k = none) :
     EInv P hc Ok k tr (stepCore P hc s .reopen).1 ∧ ED hc k tr (stepCore P hc s .reopen).1 ∧
     (stepCore P hc s .reopen).1.mem.held = [] := by
   obtain ⟨⟨hev, hed, hq, hkp, hheld⟩, hrb⟩ := h
@@ -147,7 +148,7 @@ theorem woe_reopen {tr : Option Nat} {s : HState σ} (hfd : FlushDrops P hc Ok k
     (by intro rid hrid; cases hrid)
   have b1 := rb_memOp P hc (hc.mcfg.H k) hrb .flush
   have hl1 : Cache.lookup hc.mcfg (memOp P hc s .flush).1.mem k = none := by
-    rw [memOp_mem]; exact hfd s.mem hev.cinv hheld
+    rw [memOp_mem]; exact hfl
   generalize (memOp P hc s .flush).1 = s1 at e1 d1 b1 hl1
   have e1' : EInv P hc Ok k tr ({ s1 with held := false, gated := false } : HState σ) :=
     ⟨e1.cinv, ⟨rfl, rfl, e1.ds.hi, e1.ds.kq, e1.ds.seqok⟩, e1.M, e1.N, e1.Y⟩
@@ -191,7 +192,7 @@ theorem woe_step_r {tr : Option Nat} {s : HState σ} (hfd : FlushDrops P hc Ok k
     exact ⟨⟨h1, (rb_step P hc _ h.2 ht h.1.2.2.1 op (okOp_quiet hok)).1⟩, h2⟩
   · have hre := isReopen_eq hre
     subst hre
-    obtain ⟨w1, w2, w3⟩ := woe_reopen P hc Ok L hn he ht hf k hfd h
+    obtain ⟨w1, w2, w3⟩ := woe_reopen P hc Ok L hn he ht hf k h (hfd s.mem h.1.1.cinv h.1.2.2.2.2)
     have b := rb_step P hc (hc.mcfg.H k) h.2 ht h.1.2.2.1 .reopen trivial
     unfold step at b ⊢
     simp only [truthStep, readOk, and_true]
